@@ -239,8 +239,14 @@ def gen_S(seed, klass="S"):
     abbrs = b""
     amap = {}
 
-    def addtype(off, isd, raw):
+    def addtype(off, isd, raw, share=False):
         nonlocal abbrs
+        if raw not in amap and share:
+            # zic stores a designation that is the tail of another one inside it ("AHST\0" also serves "HST")
+            enc = raw.encode("latin1") + b"\0"
+            k = abbrs.find(enc)
+            if k >= 0:
+                amap[raw] = k
         if raw not in amap:
             amap[raw] = len(abbrs)
             abbrs += raw.encode("latin1") + b"\0"
@@ -256,10 +262,23 @@ def gen_S(seed, klass="S"):
     for _ in range(r.randrange(0, 4)):
         _, raw = rnd_abbr(r, used)
         extra.append(addtype(r.randrange(-14 * 4, 14 * 4 + 1) * 900, 1 if r.random() < 0.3 else 0, raw))
+    variant = None
     if r.random() < 0.15 and dst:
-        # isdst-only / abbreviation-only variants of an existing type
+        # isdst-only / abbreviation-only variants of an existing type; the new designation is unrelated to the old one,
+        # extends it, is its beginning, or is its tail (then stored inside it)
         _, raw = rnd_abbr(r, used)
-        extra.append(addtype(std[0], 0, raw))
+        k = r.randrange(0, 4)
+        share = False
+        if k == 1 and std[1] + "X" not in used:
+            raw = std[1] + "X"
+        elif k == 2 and len(std[1]) >= 4 and std[1][:-1] not in used:
+            raw = std[1][:-1]
+        elif k == 3 and len(std[1]) >= 4 and std[1][1:] not in used:
+            raw = std[1][1:]
+            share = True
+        used.add(raw)
+        variant = addtype(std[0], 0, raw, share)
+        extra.append(variant)
         extra.append(addtype(std[0], 1, std[1]) if (std[0], 1, amap[std[1]]) not in types else si)
     if abbr_route:
         want = r.choice([255, 255, 255, 254, 250])
@@ -321,6 +340,12 @@ def gen_S(seed, klass="S"):
         trans.append((t, ty))
         prev = ty
     trans.append(tl)
+    if variant is not None and r.random() < 0.8:
+        # make sure the abbreviation-only change happens, in both directions
+        t2 = trans[0][0] - r.randrange(20, 400) * SPD
+        t1 = t2 - r.randrange(20, 400) * SPD
+        t0 = t1 - r.randrange(20, 400) * SPD
+        trans = [(t0, si), (t1, variant), (t2, si)] + trans
     if r.random() < 0.15:
         trans = [(-2 ** 59, lmt)] + [x for x in trans if x[0] > -2 ** 59 + 3 * SPD]
     if omit is not None and all(ty != omit for _, ty in trans):
